@@ -12,6 +12,7 @@ import (
 
 	"github.com/ossrs/go-oryx-lib/rtmp"
 	"verif/sim/kernel"
+	"verif/sim/ref"
 	"verif/sim/simnet"
 )
 
@@ -124,7 +125,17 @@ func SIDOf(m *rtmp.Message) uint32 {
 		mm.Payload = []byte{0}
 	}
 	rtmp.NewProtocol(&buf).WriteMessage(&mm)
+	// the header is read back with the reference chunk parser, whatever basic
+	// header form the library chose for the message's chunk stream id
 	b := buf.Bytes()
+	cp := ref.NewChunkParser()
+	cp.Feed(b)
+	if cp.Err == nil && len(cp.Msgs) == 1 && cp.Pending() == 0 {
+		return cp.Msgs[0].StreamID
+	}
+	// The library writes a received message's chunk stream id as one byte
+	// (id & 0x3f) even for ids >= 64, which the parser cannot read back: fall
+	// back to the type-0 header behind a 1-byte basic header.
 	if len(b) < 12 {
 		return 0xdeadbeef
 	}
